@@ -252,7 +252,10 @@ def step (st : St) (line : String) : St × List String :=
     let res := (kv rest "res").getD "?"
     let iOut := (kv rest "out").getD "-"
     let iStS := (kv rest "st").getD "-"
-    let iDbS := (kv rest "db").getD "-"
+    let iDbS0 := (kv rest "db").getD "-"
+    -- `X:<id>=<what>` entries: the node's own lookup (GetSignedVAABytes) does not serve what the store holds (raw read)
+    let notServed : List String := if iDbS0 = "-" || iDbS0 = "?" then [] else (iDbS0.splitOn "|").filter (·.startsWith "X:")
+    let iDbS := if notServed.isEmpty then iDbS0 else joinOr "|" ((iDbS0.splitOn "|").filter (!·.startsWith "X:"))
     -- build the event and the oracle of this line
     let dig := (kv rest "dig").getD ""
     let digB := (kvHex rest "dig").getD []
@@ -443,7 +446,10 @@ def step (st : St) (line : String) : St × List String :=
             | none => none).take 1
         let st := updateLifetimes st now iSt
         let st := { st with prevSt := iSt, prevStS := if unobserved then "?" else iStS, prevDb := iDb }
-        let specErrs := govErr ++ gateErr ++ pubErrs ++ complErr ++ cleanErrs ++ budgetErr
+        let serveErr : List String := match notServed with
+          | [] => []
+          | x :: _ => [s!"spec {id} stored-vaa-not-served {op}: the store holds a signed VAA that the node's own lookup does not return as stored ({x.take 120}; {notServed.length} such entries)"]
+        let specErrs := govErr ++ gateErr ++ pubErrs ++ complErr ++ cleanErrs ++ budgetErr ++ serveErr
         -- ---------- model vs implementation ----------
         if st.desync then (st, if specErrs.isEmpty then [] else specErrs) else
         match mres with
